@@ -69,6 +69,8 @@ impl SmallVecAttr {
 }
 #[verifier::external_body]
 pub fn vx_root_type() -> ElementType { unimplemented!() }
+#[verifier::external_body]
+pub fn vx_pathbuf_none() -> PathBuf { unimplemented!() }
 impl ElementName {
     #[verifier::external_body]
     pub fn from_bytes(b: &[u8]) -> (r: Result<ElementName, ()>) { unimplemented!() }
@@ -139,6 +141,9 @@ def fns():
                requires=['old(self).buffer.len() <= isize::MAX'],
                loops={0: dict(invariant=['lexer.inv()'],
                               decreases='lexer.measure() + (if matches!(arxmlevent, Ok(ArxmlEvent::Comment(..))) { 1int } else { 0int })')}),
+        # the public header probe (lib.rs): a parser in lenient mode on the buffer, then check_arxml_header -- total for every buffer
+        FnSpec('check_buffer', 'autosar-data/src/lib.rs', ret='r', requires=['buffer.len() <= isize::MAX'],
+               body_sub=[(r'PathBuf::from\("none"\)', lambda m: 'vx_pathbuf_none()', 'R29')]),
     ]
 
 
